@@ -34,7 +34,10 @@ RULE = ("Two feature files on disk (features/f0.feature, features/f1.feature in 
         "walked afterwards; never formatter events); plus, on 3 pairs, the rerun entries fed back next to a line-less "
         "(whole-file) location of a third feature - on the command line before '@rerun.txt', inside a list file whose "
         "first entry is the whole file, and after '@rerun.txt' - where run 2 must execute the listed scenarios plus every "
-        "scenario of the whole-file feature and skip the rest. Run 1 = real Configuration "
+        "scenario of the whole-file feature and skip the rest; plus, on every pair, exactly one slot of kind cleanup (its passing "
+        "step registers a raising cleanup on the scenario layer: the scenario ends error-class - fixed by the kind, not read "
+        "from the model - and must be listed) or cleanupf (registered with layer='feature': the feature ends error, the "
+        "scenario passed and is not listed), alone and next to <= 1 (thorough: <= 2) other non-pass slots. Run 1 = real Configuration "
         "(-f rerun -o rerun.txt features), collect_feature_locations + parse_features on the files, formatters from "
         "make_formatters, ModelRunner with a fresh StepRegistry. Oracle: rerun.txt lists exactly file:line (line known "
         "from the renderer) of the scenarios whose final status is failed or error-class, in run order; none -> no file "
@@ -49,14 +52,24 @@ RULE = ("Two feature files on disk (features/f0.feature, features/f1.feature in 
 ASSUMPTIONS = ["the rerun file is written into the current directory and fed back from there (documented usage "
                "`behave @rerun.txt`); an output file in another directory than the cwd is not enumerated",
                "error-class = error, hook_error, cleanup_error, undefined, pending (docs/appendix.status.rst)",
-               "the second run uses the same tag expression and the same hook faults as the first"]
+               "the second run uses the same tag expression and the same hook faults as the first",
+               "kind cleanupf (a raising cleanup registered with layer='feature' from a passing scenario): the statement "
+               "lists unsuccessful SCENARIOS; that scenario itself passed (only its feature ends error), so it is expected "
+               "NOT to be listed - only what the statement says about scenarios is judged",
+               "kind cleanup: the expected status (error-class) is fixed by the kind, not read from the model"]
 
 KINDS = ("pass", "fail", "error", "undef", "pend", "hookb", "hooka", "desel")
 NONPASS = KINDS[1:]
+# the cleanup kinds are deviations of their own sweep (cleanup_cases), not part of the NONPASS alphabet of the main one
+CLEANUP_KINDS = ("cleanup", "cleanupf")
 STEP = {"pass": "pass", "fail": "fail", "error": "error", "undef": "undefined", "pend": "pending",
-        "hookb": "pass", "hooka": "pass", "desel": "fail"}
+        "hookb": "pass", "hooka": "pass", "desel": "fail", "cleanup": "cleanup", "cleanupf": "cleanupf"}
+# expected final status per kind. For `cleanup` (the passing step registers a raising cleanup on the scenario layer) it is
+# fixed by the rule "a raising cleanup makes the owning element fail" (C13): the scenario ends in an error-class status;
+# for `cleanupf` (registered with layer="feature") the owning element is the feature, the scenario itself passed
 EXPECT = {"pass": ("passed",), "fail": ("failed",), "error": ("error",), "undef": ("undefined", "error"),
-          "pend": ("pending", "error"), "hookb": ("hook_error",), "hooka": ("hook_error",), "desel": ("skipped",)}
+          "pend": ("pending", "error"), "hookb": ("hook_error",), "hooka": ("hook_error",), "desel": ("skipped",),
+          "cleanup": ("error", "cleanup_error"), "cleanupf": ("passed",)}
 ERRC = ("error", "hook_error", "cleanup_error", "undefined", "pending")
 RERUN = "rerun.txt"
 FDIR = "features"
@@ -271,7 +284,8 @@ def one_run(m, args, loc2path, faults, loc2cont=None, cfault=None, feedback=Fals
     from behave.runner_util import parse_features, collect_feature_locations
     from behave.formatter._registry import make_formatters
     obs = {"escaped": None, "feed_exc": None, "verdict": None, "status": {}, "selected": {}, "calls": [], "before": [],
-           "after": [], "unknown": [], "present": [], "chooks": [], "cstatus": {}, "mstatus": {}}
+           "after": [], "unknown": [], "present": [], "chooks": [], "cstatus": {}, "mstatus": {},
+           "cleanups": []}
     live = {}            # file:line -> the scenario object that was really executed (kept at execution time)
     config = m["Configuration"](list(args), load_config=False)
     try:
@@ -310,9 +324,17 @@ def one_run(m, args, loc2path, faults, loc2cont=None, cfault=None, feedback=Fals
                 raise RuntimeError("err %d" % n)
             if kind == "pending":
                 raise m["StepNotImplementedError"]("pending %d" % n)
+            if kind == "cleanup":
+                ctx.add_cleanup(raising_cleanup, n)
+            if kind == "cleanupf":
+                ctx.add_cleanup(raising_cleanup, n, layer="feature")
         step_impl.__name__ = "step_" + kind
         return step_impl
-    for kind in ("pass", "fail", "error", "pending"):
+
+    def raising_cleanup(n):
+        obs["cleanups"].append(n)
+        raise RuntimeError("cleanup %d failed" % n)
+    for kind in ("pass", "fail", "error", "pending", "cleanup", "cleanupf"):
         reg.add_step_definition("step", "step {n:d} %s" % kind, make_step(kind))
 
     def before_scenario(ctx, scenario):
@@ -395,7 +417,7 @@ def klass(status):
     return "failed" if status == "failed" else "error" if status in ERRC else status
 
 
-def check_listing(v, hist, status, order, path2loc, loc2path, text, entries, stale_text, fstatus, tagon=None):
+def check_listing(v, hist, status, order, path2loc, loc2path, text, entries, stale_text, fstatus, tagon=None, forced=()):
     """the listing clause of the statement for one run; returns the expected entries.
     Trigger class of a missing entry: "error" when the scenario's own final status or the final status of its
     feature is error-class (one class: an error-class status is involved), otherwise "failed"."""
@@ -415,6 +437,8 @@ def check_listing(v, hist, status, order, path2loc, loc2path, text, entries, sta
             desc = {"subcheck": "rerun.listing", "clause": "missing", "status_class": cls}
             if fst == "hook_error":          # only a feature-level hook fault gives a feature this status
                 desc["feature_status"] = fst
+            if p in forced:                  # status fixed by the kind `cleanup`, the model says otherwise
+                desc["status_from"] = "raising-scenario-cleanup"
             if tagon and tagon.get(e[0]):    # switch-combination programs: where @t sits in that feature
                 desc["tag_on"] = tagon[e[0]]
             v.append((desc,
@@ -549,8 +573,16 @@ def rerun_case(case):
                 v.append(({"subcheck": "run.status", "clause": "kind-gives-other-status", "kind": kind_of[p],
                            "status": str(st1.get(p))},
                           "run 1: scenario %r of kind %s ended %s" % (p, kind_of[p], st1.get(p))))
+        forced = set()
         for p in order:
-            if p in o1["before"] and o1["mstatus"].get(p) != st1.get(p):
+            if kind_of[p] == "cleanup" and p in o1["before"] and klass(st1.get(p)) != "error":
+                # the kind fixes the truth: its scenario-layer cleanup raised (the premise check above has reported that the
+                # scenario object says otherwise); the listing oracle below works with the status the rule gives
+                st1 = dict(st1)
+                st1[p] = "error"
+                forced.add(p)
+        for p in order:
+            if p in o1["before"] and o1["mstatus"].get(p) != o1["status"].get(p):
                 v.append(({"subcheck": "run.model", "clause": "walked-model-differs-from-executed-scenario",
                            "elem": elem_class(p, prog)},
                           "run 1: scenario %r was executed and ended %s, feature.walk_scenarios() afterwards yields a "
@@ -559,7 +591,7 @@ def rerun_case(case):
         expected1 = check_listing(v, "run 1 %skinds=%s stale=%s cfault=%s" % (opts and "%s " % list(opts) or "", list(kinds),
                                                                           stale, cfault), st1, order,
                                   path2loc, loc2path,
-                                  text1, entries1, stale_text, o1["fstatus"], tagon)
+                                  text1, entries1, stale_text, o1["fstatus"], tagon, forced)
 
         # ---------------- feed the file back: selection and second run
         o2 = None
@@ -684,12 +716,14 @@ def rerun_case(case):
         out = (tuple(sorted(set(st1.values()))), min(n_unsucc, 3), text1 is not None, bool(stale), o2 is not None,
                cfault and (cfault[1], "feature" if len(cfault[0]) == 1 else "rule"), int(bool(dup)),
                special and special + (feed,), opts and ("+".join(o.strip("-").split("=")[0] for o in opts),
-                                                        tuple(sorted(set(tagon.values()), key=str))), feed)
+                                                        tuple(sorted(set(tagon.values()), key=str))), feed,
+               "+".join(sorted(set(k for k in kinds if k in CLEANUP_KINDS))) or None)
         # special-tag programs: what happens to the untagged unlisted scenarios is judged by the oracle, but a defect there
         # may depend on set iteration order, so those scenarios stay out of the determinism digest
         keep = set(order) if not special else set(p for p in order if p in exempt or st1.get(p) != "passed")
         keep |= set(xpaths)
         dg = (text1, sorted(st1.items()), o1["calls"], o1["before"], o1["after"], o1["chooks"], sorted(o1["cstatus"].items()),
+              o1["cleanups"],
               o2 and (sorted(x for x in o2["selected"].items() if x[0] in keep),
                       sorted(x for x in o2["status"].items() if x[0] in keep),
                       [c for c in o2["calls"] if c[0] in keep], [p for p in o2["before"] if p in keep]), text2)
@@ -802,6 +836,26 @@ def switch_cases(tier):
                 yield (s0, s1, kinds, 1, None, 0, 0, opts)
 
 
+def cleanup_cases(tier):
+    """exactly one slot of kind cleanup / cleanupf, alone and next to <= 1 (thorough: <= 2) other non-pass slots"""
+    quick = tier == "quick"
+    others = ("fail", "error", "hooka", "desel") + CLEANUP_KINDS if quick else NONPASS + CLEANUP_KINDS
+    for a, b in (QUICK_PAIRS if quick else THOROUGH_PAIRS):
+        s0, s1 = SHAPES[a], SHAPES[b]
+        n = nslots(s0) + nslots(s1)
+        for nother in range(0, 2 if quick else 3):
+            for i in range(n):
+                rest = [x for x in range(n) if x != i]
+                for ck in CLEANUP_KINDS:
+                    for pos in itertools.combinations(rest, nother):
+                        for ks in itertools.product(others, repeat=nother):
+                            t = ["pass"] * n
+                            t[i] = ck
+                            for x, kd in zip(pos, ks):
+                                t[x] = kd
+                            yield (s0, s1, tuple(t), 1)
+
+
 FEED_PAIRS = (("SS", "O2"), ("O2", "S+R(S)"), ("R(S,O1)", "O1|1"))
 
 
@@ -840,13 +894,16 @@ def run(ctx):
                   "feed_modes": "@rerun.txt alone (everywhere); file:line arguments (special-tag programs); 3 pairs x "
                                 "{whole-file location of a third feature before @rerun.txt, list file starting with a "
                                 "whole-file entry, whole-file location after @rerun.txt}",
+                  "cleanup_kinds": "exactly one slot cleanup / cleanupf on every pair, alone and with <= %d other non-pass slots"
+                                   % (1 if ctx.quick else 2),
                   "executions": "a case with a rerun file counts 2 (run + re-run), otherwise 1"}
     ctx.sweep(rerun_case, cases(ctx.tier), chunk=16, name="run -> rerun.txt -> run")
     ctx.sweep(rerun_case, special_cases(ctx.tier), chunk=8, name="bystanders tagged @setup/@teardown")
     ctx.sweep(rerun_case, switch_cases(ctx.tier), chunk=16, name="{--tags=t} x {--no-skipped} x @t placements")
     ctx.sweep(rerun_case, feed_cases(ctx.tier), chunk=16, name="rerun entries next to a whole-file location")
+    ctx.sweep(rerun_case, cleanup_cases(ctx.tier), chunk=16, name="scenario kinds cleanup / cleanupf")
     kinds_seen = set()
-    for (statuses, _n, _f, _s, _second, _cf, _dup, _sp, _sw, _feed) in ctx.outcomes:
+    for (statuses, _n, _f, _s, _second, _cf, _dup, _sp, _sw, _feed, _cl) in ctx.outcomes:
         kinds_seen |= set(statuses)
     for need in ("passed", "failed", "error", "hook_error", "skipped"):
         ctx.guard(need in kinds_seen, "scenario status %s occurred in run 1" % need)
@@ -866,6 +923,10 @@ def run(ctx):
         ctx.guard(need in sws, "switch combination %s: unsuccessful scenarios listed and fed back" % need)
     ctx.guard(any(o[8] and o[8][0] == "tags+no-skipped" and "examples" in o[8][1] and "skipped" in o[0] and o[4]
                   for o in ctx.outcomes), "--tags=t --no-skipped with rows selected only through an Examples-block tag")
+    ctx.guard(any(o[10] == "cleanup" and o[4] and o[1] > 0 for o in ctx.outcomes),
+              "a scenario whose only problem is a raising scenario-layer cleanup was listed and fed back")
+    ctx.guard(any(o[10] == "cleanupf" and o[1] == 0 and o[3] for o in ctx.outcomes),
+              "a raising feature-layer cleanup as the only problem: no scenario to list, stale file to remove")
     for fd in (2, 3, 4):
         ctx.guard(any(o[9] == fd and o[4] and "passed" in o[0] for o in ctx.outcomes),
                   "fed back as: %s (with unlisted scenarios in the listed features)" % FEEDS[fd])
